@@ -273,10 +273,10 @@ theorem pinv_step {c : Nat} {s : RSt} {p : Phase} {att : Bool} (ev : REv) (h : P
 
 theorem pinv_run (c : Nat) : ∀ (evs : List REv) (s : RSt) (p : Phase) (att : Bool), PInv c s p att →
     (att = true → c ∉ attachIds evs) → (attachIds evs).Nodup →
-    ∃ p', accepts p (logOf c (rrun s evs).2) = some p' := by
+    ∃ p' att', accepts p (logOf c (rrun s evs).2) = some p' ∧ PInv c (rrun s evs).1 p' att' := by
   intro evs
   induction evs with
-  | nil => intro s p att _ _ _; exact ⟨p, by simp [rrun, accepts]⟩
+  | nil => intro s p att h _ _; exact ⟨p, att, by simp [rrun, accepts], h⟩
   | cons e es ih =>
     intro s p att h hatt hnd
     have hf : attachOf c e = true → att = false := by
@@ -305,8 +305,8 @@ theorem pinv_run (c : Nat) : ∀ (evs : List REv) (s : RSt) (p : Phase) (att : B
       | _ =>
         have : att = true := by simpa [attachOf] using hb
         simpa [attachIds] using hatt this
-    obtain ⟨p2, hp2⟩ := ih (rstep s e).1 p1 (att || attachOf c e) hinv hatt' hnd'
-    refine ⟨p2, ?_⟩
+    obtain ⟨p2, att2, hp2, hinv2⟩ := ih (rstep s e).1 p1 (att || attachOf c e) hinv hatt' hnd'
+    refine ⟨p2, att2, ?_, hinv2⟩
     simp only [rrun, logOf_append, accepts_append, hp1, Option.bind_some, hp2]
 
 theorem pinv_init (c : Nat) (sg ab : Bool) : PInv c (rinit sg ab) .fresh false :=
@@ -775,5 +775,38 @@ theorem current_run (evs : List REv) : ∀ (s : RSt), (rrun s evs).1.stopped = f
     have := ih _ h
     rw [lastBody_cons, anyEvent_cons]
     simp_all
+
+
+theorem abort_run (s : RSt) (evs : List REv) : (rrun s evs).1.abort = s.abort := by
+  induction evs generalizing s with
+  | nil => rfl
+  | cons e es ih => simp only [rrun]; rw [ih, abort_step]
+
+theorem single_step (s : RSt) (e : REv) : (rstep s e).1.single = s.single := by
+  cases e with
+  | dropReader d => rfl
+  | attach x =>
+    simp only [rstep]; split
+    · rfl
+    · unfold onAttach; split
+      · rfl
+      · split <;> rfl
+  | stop => simp only [rstep]; split <;> rfl
+  | msg m =>
+    simp only [rstep]; split
+    · rfl
+    · cases m with
+      | linked => simp only [onMsg]; unfold onLinked; split <;> rfl
+      | synced => simp only [onMsg]; unfold onSynced; split <;> rfl
+      | unlinked => rfl
+      | event b => simp only [onMsg]; unfold dispatch; split <;> rfl
+      | badEvent => simp only [onMsg]; split
+                    · rfl
+                    · unfold dispatch; split <;> rfl
+
+theorem single_run (s : RSt) (evs : List REv) : (rrun s evs).1.single = s.single := by
+  induction evs generalizing s with
+  | nil => rfl
+  | cons e es ih => simp only [rrun]; rw [ih, single_step]
 
 end SwimVerif.DL
